@@ -233,6 +233,9 @@ TemplateUnits(tpl, i, tgt) ==
     [] tpl = "ret1"  -> << <<"ret">> >>
     [] tpl = "ijmp"  -> << <<"op", 2, 10 * i + 1>>, <<"ijmp">> >>
     [] tpl = "icall" -> << <<"op", 2, 10 * i + 1>>, <<"icall">> >>
+    \* a system call: the block ends with it (Syscall edge to a proxy) and control comes back
+    \* behind it (Fallthrough) - a terminator that is none of branch / call / return
+    [] tpl = "sysc"  -> << <<"op", 2, 10 * i + 1>>, <<"sysc">> >>
     [] tpl = "z0"    -> <<>>
     [] tpl = "d3"    -> << <<"d", 3, 10 * i + 1>> >>
     [] tpl = "d4"    -> << <<"d", 4, 10 * i + 1>> >>
@@ -241,7 +244,7 @@ UsesTarget(tpl) == tpl \in {"jmp", "jmp1", "jcc", "call"}
 LastKind(tpl) ==
   CASE tpl \in {"o1", "o23", "z0"} -> "op" [] tpl \in {"jmp", "jmp1"} -> "jmp" [] tpl \in {"d3", "d4"} -> "d" [] OTHER -> tpl
 LastKindOf(tpl) == IF tpl = "ret1" THEN "ret" ELSE LastKind(tpl)
-CanFallthrough(k) == k \in {"op", "jcc", "call", "icall"}
+CanFallthrough(k) == k \in {"op", "jcc", "call", "icall", "sysc"}
 
 UnitSize(isa, un) ==
   IF isa = "arm64" THEN (IF un[1] = "d" THEN un[2] ELSE 4) ELSE
@@ -249,7 +252,7 @@ UnitSize(isa, un) ==
     [] un[1] \in {"jmp", "call"} -> 5
     [] un[1] = "jcc" -> 6
     [] un[1] = "ret" -> 1
-    [] un[1] \in {"ijmp", "icall"} -> 2
+    [] un[1] \in {"ijmp", "icall", "sysc"} -> 2
     [] un[1] = "d" -> un[2]
 BName(i) == CASE i = 0 -> "ext" [] i = 1 -> "b1" [] i = 2 -> "b2" [] i = 3 -> "b3" [] i = 4 -> "b4" [] OTHER -> "bx"
 
@@ -316,6 +319,7 @@ BlockEdges(p, i) ==
               [] k = "ijmp" -> <<e(0, own, "Branch", FALSE, FALSE)>>
               [] k = "icall" -> <<e(0, own, "Call", FALSE, FALSE)>>
               [] k = "ret" -> <<e(0, own, "Return", FALSE, TRUE)>>
+              [] k = "sysc" -> <<e(0, own, "Syscall", FALSE, FALSE)>>
               [] OTHER -> <<>>)
 EdgesOf(p) == FlattenSeq([i \in 1..p.nb |-> BlockEdges(p, i)])
 \* the renderer's edge format: [src sec, src blk, dst, type, conditional, direct]
